@@ -29,7 +29,10 @@ WsVariants == { M(<<>>),
 \* the three forms of auxiliary data: Shelley (metadata map), Shelley-MA ([metadata, native scripts]), Alonzo (#6.259 map)
 Md == M(<< <<U(FromSmall(674)), Tx(<<104, 105>>)>> >>)
 AuxOf(form) == CASE form = "map" -> Md [] form = "array" -> A(<<Md, A(<<NativeS(5)>>)>>)
-                 [] form = "tag" -> T(259, M(<< <<U(Zero), Md>>, <<U(One), A(<<NativeS(5)>>)>>, <<U(FromSmall(3)), A(<<Bs(H(7, 5))>>)>> >>)) [] OTHER -> Sp(246)
+                 [] form = "tag" -> T(259, M(<< <<U(Zero), Md>>, <<U(One), A(<<NativeS(5)>>)>>, <<U(FromSmall(3)), A(<<Bs(H(7, 5))>>)>> >>))
+                 \* present but holding nothing, in each of the three forms (kept verbatim like any other auxiliary data)
+                 [] form = "emap" -> M(<<>>) [] form = "earray" -> A(<<M(<<>>), A(<<>>)>>) [] form = "etag" -> T(259, M(<<>>))
+                 [] form = "etag2" -> T(259, M(<< <<U(Zero), M(<<>>)>>, <<U(One), A(<<>>)>> >>)) [] OTHER -> Sp(246)
 \* aux = <<arity, form>>: four elements, or the pre-Alonzo three-element layout without the validity flag
 TxOf(ws, aux) == IF aux[1] = 4 THEN A(<<Body, ws, Sp(245), AuxOf(aux[2])>>) ELSE A(<<Body, ws, AuxOf(aux[2])>>)
 OpsSet == {"vkey1", "vkey2", "boot1"}
@@ -49,7 +52,8 @@ Cases == {[ws |-> w, aux |-> <<4, "none">>, dev |-> d, hist |-> h, pair |-> NoPa
     \cup {[ws |-> W1, aux |-> <<4, "tag">>, dev |-> <<<<-1>>, pr[1][2] \o "+" \o pr[2][2] \o "+" \o pr[3][2]>>, hist |-> h, pair |-> pr] : pr \in PairSet, h \in {<<>>, <<"vkey1", "boot1">>}}
     \cup UNION {{[ws |-> wa[1], aux |-> wa[2], dev |-> d, hist |-> h, pair |-> NoPair] : d \in Deviations(TxOf(wa[1], wa[2])), h \in {<<>>, <<"vkey1">>, <<"boot1">>, <<"vkey1", "boot1">>}} :
                  wa \in {<<W1, <<4, "map">>>>, <<W2, <<4, "map">>>>, <<W1, <<4, "array">>>>, <<W1, <<4, "tag">>>>, <<W1, <<3, "map">>>>, <<W1, <<3, "array">>>>}}
-Init == c \in Cases
+EmptyAux == {[ws |-> W1, aux |-> <<ar, f>>, dev |-> NoDev, hist |-> h, pair |-> NoPair] : ar \in {3, 4}, f \in {"emap", "earray", "etag", "etag2"}, h \in {<<>>, <<"vkey1">>, <<"vkey1", "boot1">>}}
+Init == c \in Cases \cup EmptyAux
 Next == UNCHANGED c
 Part(t, d) == Raw(Enc(t, <<>>, d[1], d[2]))
 Bytes == IF c.pair = NoPair THEN Enc(TxOf(c.ws, c.aux), <<>>, c.dev[1], c.dev[2])
